@@ -23,8 +23,8 @@ BINARY = ("ADDER", "SUBSTRACTER", "MULTIPLIER", "ABOVE", "BELOW")
 SCALAR = ("SCALAR_ADDER", "SCALAR_MULTIPLIER", "SCALAR_REV_SUBSTRACTER", "SHIFT")
 AGG = ("SUM", "MIN", "MAX", "AVERAGER")
 EXPR_SHAPES = ("add", "mullit", "litsub", "twotemp", "reflex", "diff", "integ", "xshift",
-               "copy", "three")
-NOEQ_SHAPES = ("add", "twotemp", "diff", "mullit")
+               "copy", "three", "absf", "avgdev", "sumfn")
+NOEQ_SHAPES = ("add", "twotemp", "diff", "mullit", "absf", "avgdev")
 T0 = (2020, 3, 1, 0, 0, 0, 0)
 NAN = float("nan")
 
@@ -441,6 +441,12 @@ class TrackWorld(World):
             if not leq(got, exp):
                 return self.fail(prop, "table.values", "%s: values read under %r in session %d" % (where, name, s),
                                  jsonable(exp), jsonable(got))
+            if n:
+                i = self.step_index % n          # the per-observation read API, one rotating index per step
+                g1, g2 = t[name, i], t.getObsAnalyticalFeature(name, i)
+                if not (feq(g1, exp[i]) and feq(g2, exp[i])):
+                    return self.fail(prop, "table.values", "%s: value read under [%r, %d] in session %d"
+                                     % (where, name, i, s), jsonable(exp[i]), jsonable([g1, g2]))
         return None
 
     def _check_all(self, prop, where):
@@ -831,6 +837,19 @@ class TrackWorld(World):
             return "I{%s}" % a, self._m_unary("INTEGRATOR", A), [a], 1
         if sh == "copy":
             return "%s*1" % a, [v * 1.0 for v in A], [a], 1
+        if sh == "absf":
+            return "ABS{%s-%s}" % (a, L), [abs(v - float(lit)) if v == v else NAN for v in A], [a], 2
+        if sh in ("avgdev", "sumfn"):
+            clean = [v for v in A if v == v]
+            if not clean:
+                raise Skip()
+            tot = 0
+            for v in clean:
+                tot += v
+            if sh == "sumfn":
+                return "SUM{%s}*%s" % (a, L), [tot * float(lit)] * len(A), [a], 2
+            mean = tot / len(clean)
+            return "%s-AVG{%s}" % (a, a), [v - mean for v in A], [a], 2
         raise HarnessError(sh)
 
     def op_expr(self, st):
